@@ -333,3 +333,51 @@ func part(sb *strings.Builder, opt *Options, depth int, member string, from int)
 		opt.Part(member, sb.String()[from:])
 	}
 }
+
+// Member is one top-level member of an observation.
+type Member struct{ Name, Text string }
+
+// Members observes v and returns its top-level members in order (a value
+// without members is one member named "(value)").
+func Members(v any, opt *Options) []Member {
+	o2 := Options{}
+	if opt != nil {
+		o2 = *opt
+	}
+	var ms []Member
+	o2.Part = func(n, t string) { ms = append(ms, Member{n, t}) }
+	s := Observe(v, &o2)
+	if len(ms) == 0 {
+		ms = []Member{{"(value)", s}}
+	}
+	return ms
+}
+
+// Render joins the members that are not masked.
+func Render(ms []Member, mask map[string]bool) string {
+	var sb strings.Builder
+	for _, m := range ms {
+		if !mask[m.Name] {
+			sb.WriteString(m.Text)
+		}
+	}
+	return sb.String()
+}
+
+// Unstable names the members that differ between two observations which, for
+// a value that is a function of its input, would have to be equal (the same
+// value observed twice; two values parsed from the same bytes). Such a member
+// reports something else — a clock, a call or parse counter, shared statistics
+// — and cannot be used to tell whether the value changed.
+func Unstable(a, b []Member) map[string]bool {
+	var mask map[string]bool
+	for i := range a {
+		if i >= len(b) || a[i].Name != b[i].Name || a[i].Text != b[i].Text {
+			if mask == nil {
+				mask = map[string]bool{}
+			}
+			mask[a[i].Name] = true
+		}
+	}
+	return mask
+}
